@@ -106,6 +106,7 @@ def inline_crate(j):
     moved = _alias_moved(j, kn)
     renamed = moved + _alias_renamed(j, kn)
     renamed += _alias_fields(j)
+    renamed += _alias_error_enums(j)
     by_name = {f['name']: f for f in j['fns']}
     _CTX['by_name'], _CTX['j'] = by_name, j
     stats = {'inlined': 0, 'dropped': [], 'sites': [], 'renamed': renamed}
@@ -187,6 +188,12 @@ def inline_crate(j):
                     continue
             if t['t'] == 'call' and (t['callee'].get('def') or '') == 'std::iter::Iterator::fold' and len(t['args']) == 3:
                 if _for_each_to_loop(f, bi, by_name, inline_fn, stack, depth, fold=True):
+                    stats['inlined'] += 1
+                    stats['sites'].append('%s <- for_each' % f['name'])
+                    bi += 1
+                    continue
+            if t['t'] == 'call' and (t['callee'].get('def') or '') in VALUE_COMBINATORS and len(t['args']) == 2:
+                if _lower_value_combinator(f, bi):
                     stats['inlined'] += 1
                     stats['sites'].append('%s <- for_each' % f['name'])
                     bi += 1
@@ -313,10 +320,16 @@ def inline_crate(j):
         touched = {x.split(' <- ')[0] for x in stats['sites']}
     stats['threaded'] = 0
     stats['webs'] = 0
+    new_structs = _new_struct_paths(j)
     for f in j['fns']:
         if f['name'] in touched:
             stats['lowered'] = stats.get('lowered', 0) + cfgnorm.lower_branch(f) + cfgnorm.lower_fnptr_calls(f)
             stats['direct_stores'] = stats.get('direct_stores', 0) + cfgnorm.direct_stores(f)
+            if new_structs:
+                n_sr = cfgnorm.scalar_replace(f, new_structs)
+                if n_sr:
+                    stats['scalar_replaced'] = stats.get('scalar_replaced', 0) + n_sr
+                    cfgnorm.direct_stores(f)
             for _ in range(4):
                 n = cfgnorm.thread_jumps(f, j.get('adts') or {})
                 stats['threaded'] += n
@@ -330,6 +343,30 @@ def inline_crate(j):
                 cfgnorm.thread_jumps(f, j.get('adts') or {})
                 stats['webs'] += cfgnorm.split_webs(f)
     return stats
+
+
+def _new_struct_paths(j):
+    """structs (one variant, named fields) defined by the analysed crate that the reference tree does not have under
+    any path — nor under another name with the same field types (a renamed reference struct)"""
+    ref = known().get(ref_kind(j) + '_adts')
+    adts = j.get('adts') or {}
+    if ref is None or not adts:
+        return set()
+    mods = {f['name'].split('::')[0] for f in j.get('fns', []) if not f['name'].startswith('<')}
+    ref_last = {k.split('::')[-1] for k in ref}
+    out = set()
+    for path, vs in adts.items():
+        if len(vs) != 1 or vs[0].get('name') != path.split('::')[-1] or not vs[0].get('fields') or str(vs[0]['fields'][0]).isdigit():
+            continue
+        if '::' in path and path.split('::')[0] not in mods:
+            continue
+        if path in ref or path.split('::')[-1] in ref_last:
+            continue
+        mine = sorted(vs[0].get('ftys', []))
+        if any(k not in adts and len(rv) == 1 and sorted(t for _, t in rv[0]) == mine and not k.startswith(('std::', 'core::', 'alloc::')) for k, rv in ref.items()):
+            continue
+        out.add(path)
+    return out
 
 
 _PATH_RE = None
@@ -545,6 +582,74 @@ def _alias_renamed(j, kn):
     return ['%s -> %s' % (a, b) for a, b in pairs]
 
 
+def _alias_error_enums(j):
+    """a *new* private enum of unit variants that a `From` impl maps, variant by variant, onto unit variants of an enum
+    the reference tree has (`Violation::WeightsDiffer => GameError::ProbabilitiesNotEqual`) is an intermediate spelling
+    of those errors: its literals are rewritten to the variants they are converted to, and explicit calls of the
+    conversion become moves (the `?` operator converts through the same impl inside `from_residual`)."""
+    import re
+    ref = known().get(ref_kind(j) + '_adts')
+    adts = j.get('adts') or {}
+    if ref is None or not adts:
+        return []
+    ref_last = {k.split('::')[-1] for k in ref}
+    out = []
+    for f in list(j['fns']):
+        n = f['name']
+        m = re.match(r'^<(.+) as (?:std|core)::convert::From<(.+)>>::from$', n)
+        if m:
+            e_ty, t_ty = m.group(1), m.group(2)
+        else:
+            m = re.match(r'^(?:.*::)?<impl (?:std|core)::convert::From<(.+)> for (.+)>::from$', n)
+            if not m:
+                continue
+            t_ty, e_ty = m.group(1), m.group(2)
+        if t_ty not in adts or e_ty not in adts or t_ty in ref or t_ty.split('::')[-1] in ref_last or e_ty not in ref:
+            continue
+        tv, ev = adts[t_ty], adts[e_ty]
+        if len(tv) < 2 or any(v.get('fields') for v in tv):
+            continue
+        unit_e = {v['name'] for v in ev if not v.get('fields')}
+        b0 = f['blocks'][0]
+        t0 = b0['term']
+        if t0['t'] != 'switch' or not any(st['s'] == 'assign' and st['rv'].get('r') == 'discr' and st['rv']['pl']['l'] == 1 and not st['rv']['pl']['p'] for st in b0['stmts']):
+            continue
+        by_discr = {str(v.get('discr')): v['name'] for v in tv}
+        mp = {}
+        for val, tb in t0['targets']:
+            w = by_discr.get(str(val))
+            aggs = [st['rv']['kind'] for st in f['blocks'][tb]['stmts'] if st['s'] == 'assign' and st['pl']['l'] == 0 and not st['pl']['p'] and st['rv'].get('r') == 'agg'
+                    and st['rv']['kind'].get('k') == 'adt' and st['rv']['kind'].get('path') == e_ty and not st['rv'].get('ops')]
+            if w is None or len(aggs) != 1 or aggs[0]['variant'] not in unit_e:
+                mp = None
+                break
+            mp[w] = aggs[0]['variant']
+        if not mp or set(mp) != {v['name'] for v in tv}:
+            continue
+
+        def fix(x):
+            if isinstance(x, dict):
+                if x.get('k') == 'adt' and x.get('path') == t_ty and x.get('variant') in mp:
+                    x['path'], x['variant'] = e_ty, mp[x['variant']]
+                for v in x.values():
+                    if isinstance(v, (dict, list)):
+                        fix(v)
+            elif isinstance(x, list):
+                for y in x:
+                    fix(y)
+        for g in j['fns']:
+            if g is f:
+                continue
+            fix(g['blocks'])
+            for b in g['blocks']:
+                t = b['term']
+                if t['t'] == 'call' and (t['callee'].get('path') or '') == n and len(t['args']) == 1 and t.get('to') is not None and t['to'] >= 0:
+                    b['stmts'].append({'s': 'assign', 'pl': copy.deepcopy(t['dest']), 'rv': {'r': 'use', 'a': copy.deepcopy(t['args'][0])}, 'line': t.get('line'), 'exp': True})
+                    b['term'] = {'t': 'goto', 'to': t['to']}
+        out.append('error enum %s -> %s (%d variants)' % (t_ty, e_ty, len(mp)))
+    return out
+
+
 def _alias_fields(j):
     """fields of a known private struct that were renamed (and possibly reordered) get their reference names back:
     matched by unchanged name first, then by type when the type identifies the field uniquely on both sides.
@@ -727,6 +832,66 @@ def _subst_const_generics(body, g, t):
             b['term'] = {'t': 'goto', 'to': tgt}
 
 
+def _impl_index():
+    """{(trait path, method): {self type head: impl fn name}} of the crate's own trait impls"""
+    j = _CTX.get('j')
+    idx = _CTX.get('impl_index')
+    if idx is not None and _CTX.get('impl_index_for') is j:
+        return idx
+    idx = {}
+    for f_ in (j or {}).get('fns', []):
+        n = f_['name']
+        if not n.startswith('<') or ' as ' not in n or '>::' not in n:
+            continue
+        head, method = n.rsplit('>::', 1)
+        if '::' in method:
+            continue
+        selfty, trait = head[1:].split(' as ', 1)
+        idx.setdefault((trait.split('<')[0], method), {})[_type_head(selfty)] = n
+    _CTX['impl_index'], _CTX['impl_index_for'] = idx, j
+    return idx
+
+
+def _type_head(t):
+    t = t.strip()
+    while t.startswith('&'):
+        t = t[1:].lstrip()
+        if t.startswith("'"):
+            t = t.split(' ', 1)[1] if ' ' in t else t
+        if t.startswith('mut '):
+            t = t[4:]
+    return t.split('<')[0]
+
+
+def _devirtualise(body, t):
+    """the spliced copy of a *generic* helper: a call of a method of a crate-local trait on one of the helper's type
+    parameters is the method of the impl for the type the caller instantiates it with — when exactly one of the call
+    site's generic arguments is a type with an impl of that trait (the static analogue of monomorphisation; what
+    `walk(&mut Expectation { .. })` runs is `<Expectation as Visitor>::player`, not `Visitor::player`)"""
+    targs = [a for a in (t['callee'].get('args') or []) if isinstance(a, str) and not a.startswith("'")]
+    if not targs:
+        return
+    idx = _impl_index()
+    for b in body:
+        bt = b['term']
+        if bt['t'] != 'call':
+            continue
+        c = bt['callee']
+        if c.get('resolved') or c.get('path') or not c.get('trait') or not c.get('local'):
+            continue
+        method = (c.get('def') or '').rsplit('::', 1)[-1]
+        impls = idx.get((c['trait'].split('<')[0], method))
+        if not impls:
+            continue
+        hits = {impls[_type_head(a)] for a in targs if _type_head(a) in impls}
+        if len(hits) == 1:
+            name = next(iter(hits))
+            # the impl's own generic arguments are not needed by anything downstream; const arguments of the instantiating
+            # type are (`ReachCollector<'_, true, ..>`): pass the literal ones on
+            lits = [x.strip() for a in targs if _type_head(a) in impls for x in a[a.find('<') + 1:a.rfind('>')].split(',') if x.strip() in ('true', 'false') or x.strip().isdigit()] if True else []
+            bt['callee'] = {'def': name, 'args': lits, 'resolved': True, 'path': name, 'trait': c['trait'], 'self': '', 'local': True, 'krate': c.get('krate', ''), 'devirtualised': True}
+
+
 def _splice(f, bi, g, how):
     """replace the call terminating block bi of f by the body of g"""
     t = f['blocks'][bi]['term']
@@ -737,6 +902,7 @@ def _splice(f, bi, g, how):
     dp = len(f.get('promoted', []))
     body = copy.deepcopy(g['blocks'])
     _subst_const_generics(body, g, t)
+    _devirtualise(body, t)
     _shift(body, dl, db, dp)
     # parameter passing
     pre = []
@@ -781,6 +947,12 @@ def _splice(f, bi, g, how):
             if 1 <= d['v']['l'] <= argc and not d['v'].get('p'):
                 continue    # parameters of the inlined callee are plain copies of the arguments: anonymous temporaries    # captured-variable names of the inlined closure: not meaningful in the caller
             f['debug'].append(d2)
+    if t['callee'].get('devirtualised') or (how == 'fn' and g['name'].startswith('<') and ' as ' in g['name'].split('>::')[0]):
+        # leave a trace of *which* impl method runs here (a unit assignment to a fresh local): a decision table whose
+        # sinks are "which implementation is reached" reads it where the call used to be
+        f['locals'].append({'ty': '()', 'adt': ''})
+        pre.append({'s': 'assign', 'pl': {'l': len(f['locals']) - 1, 'p': [], 'ty': '()'}, 'rv': {'r': 'use', 'a': {'o': 'const', 'c': {'k': 'val', 'v': None, 'ty': '()', 's': 'const ()'}}},
+                    'line': line, 'exp': True, 'spliced': g['name']})
     f['blocks'][bi]['stmts'].extend(pre)
     f['blocks'][bi]['term'] = {'t': 'goto', 'to': db}
     return True
@@ -915,6 +1087,62 @@ def _closure_def(f, op):
 
 # `map` / `and_then` are left alone: rules recognise them as calls on the reference tree (e.g. the iterators' next())
 OPTION_COMBINATORS = {'std::option::Option::<T>::or_else': 'or_else', 'std::option::Option::<T>::unwrap_or_else': 'unwrap_or_else'}
+
+
+VALUE_COMBINATORS = {'std::option::Option::<T>::ok_or': 'ok_or', 'std::result::Result::<T, E>::map': 'map_ctor'}
+
+
+def _lower_value_combinator(f, bi):
+    """combinators without a closure are the `match` they abbreviate:
+        opt.ok_or(e):   Some(v) => Ok(v)        None => Err(e)
+        res.map(Some):  Ok(v) => Ok(Some(v))    Err(e) => Err(e)      (the mapped function is the constructor `Some`)"""
+    t = f['blocks'][bi]['term']
+    kind = VALUE_COMBINATORS[t['callee']['def']]
+    src, other = t['args']
+    targs = t['callee'].get('args') or []
+    if src.get('o') not in ('copy', 'move') or src['pl']['p'] or t['dest']['p'] or t['to'] is None or t['to'] < 0:
+        return False
+    if kind == 'ok_or':
+        if len(targs) != 2:
+            return False
+        # only as the head of `opt.ok_or(e).map(Some)`: a plain `lookup.ok_or(Error)?` keeps its call form, which is what
+        # the import rules (C14) and the thread-count rule (C05) read
+        dl = t['dest']['l']
+        feeds_map = any(b_['term']['t'] == 'call' and (b_['term']['callee'].get('def') or '') == 'std::result::Result::<T, E>::map' and len(b_['term']['args']) == 2
+                        and b_['term']['args'][0].get('o') in ('copy', 'move') and b_['term']['args'][0]['pl']['l'] == dl and not b_['term']['args'][0]['pl']['p']
+                        and b_['term']['args'][1].get('o') == 'const' and str(b_['term']['args'][1]['c'].get('path', '')).endswith('::Some') for b_ in f['blocks'])
+        if not feeds_map:
+            return False
+    else:
+        if len(targs) < 3 or other.get('o') != 'const' or other['c'].get('k') != 'fn' or not str(other['c'].get('path', '')).endswith('::Some'):
+            return False
+    line, cont, dest = t.get('line'), t['to'], copy.deepcopy(t['dest'])
+    pl = lambda l_, ty, p=None: {'l': l_, 'p': p or [], 'ty': ty}
+    sl, sty = src['pl']['l'], src['pl']['ty']
+    L = len(f['locals'])
+    f['locals'].append({'ty': 'isize', 'adt': ''})
+    l_d = L
+    B = len(f['blocks'])
+    agg = lambda path, variant, ops: {'r': 'agg', 'kind': {'k': 'adt', 'path': path, 'variant': variant, 'fields': ['0'] if ops else []}, 'ops': ops}
+    payload = lambda variant, v, ty: {'o': 'move', 'pl': pl(sl, ty, [{'k': 'downcast', 'v': v, 'n': variant}, {'k': 'field', 'i': 0, 'n': '0'}])}
+    asg = lambda d_, rv: {'s': 'assign', 'pl': d_, 'rv': rv, 'line': line, 'exp': True}
+    if kind == 'ok_or':
+        b_some = {'cleanup': False, 'stmts': [asg(copy.deepcopy(dest), agg('std::result::Result', 'Ok', [payload('Some', 1, targs[0])]))], 'term': {'t': 'goto', 'to': cont}}
+        b_none = {'cleanup': False, 'stmts': [asg(copy.deepcopy(dest), agg('std::result::Result', 'Err', [copy.deepcopy(other)]))], 'term': {'t': 'goto', 'to': cont}}
+        f['blocks'].extend([b_some, b_none, {'cleanup': False, 'stmts': [], 'term': {'t': 'unreachable'}}])
+        targets, adt = [['0', B + 1], ['1', B]], 'std::option::Option'
+    else:
+        f['locals'].append({'ty': targs[2], 'adt': 'std::option::Option'})
+        l_tmp = L + 1
+        b_ok = {'cleanup': False, 'stmts': [asg(pl(l_tmp, targs[2]), agg('std::option::Option', 'Some', [payload('Ok', 0, targs[0])])),
+                                            asg(copy.deepcopy(dest), agg('std::result::Result', 'Ok', [{'o': 'move', 'pl': pl(l_tmp, targs[2])}]))], 'term': {'t': 'goto', 'to': cont}}
+        b_err = {'cleanup': False, 'stmts': [asg(copy.deepcopy(dest), agg('std::result::Result', 'Err', [payload('Err', 1, targs[1])]))], 'term': {'t': 'goto', 'to': cont}}
+        f['blocks'].extend([b_ok, b_err, {'cleanup': False, 'stmts': [], 'term': {'t': 'unreachable'}}])
+        targets, adt = [['0', B], ['1', B + 1]], 'std::result::Result'
+    blk = f['blocks'][bi]
+    blk['stmts'].append(asg(pl(l_d, 'isize'), {'r': 'discr', 'pl': pl(sl, sty), 'adt': adt}))
+    blk['term'] = {'t': 'switch', 'd': {'o': 'move', 'pl': pl(l_d, 'isize')}, 'targets': targets, 'otherwise': B + 2, 'line': line, 'exp': True}
+    return True
 
 
 def _lower_option_combinator(f, bi, by_name, inline_fn, stack, depth):
